@@ -1,15 +1,21 @@
 """C19: eyaml-rotate-keys re-keys every secret once and touches nothing else.
 
-Case = one generated YAML document (text) mixing plaintext with encrypted
-scalars at arbitrary positions -- hash values, list elements, anchored and
-aliased (alias in the same list, another list, a hash), plain / folded /
-quoted styles, secrets under foreign keys or corrupt (malformed stream) --
-and whether --backup is given.  The real eyaml-rotate-keys main() runs
-in-process against harness/eyaml_standin.py (passed with --eyaml); observed:
-the in-memory document handed to YAML.dump (object identities included), the
-"file changed" decision, the exit status and the plaintexts sent to
-`encrypt`.  The model (coq/Model/Eyaml.v, Ey.rotate_file) gets the loaded
-document and the cipher as finite oracle tables.
+Case = ONE invocation of eyaml-rotate-keys on 1 to 3 files (`files`: YAML text,
+or None for a command-line argument that is not a file) and whether --backup
+is given.  Each file is a generated YAML document mixing plaintext with
+encrypted scalars at arbitrary positions -- hash values, list elements,
+anchored and aliased (alias in the same list, another list, a hash; the anchor
+names anc0, anc1, ... repeat from file to file), plain / folded / literal /
+quoted styles, with up to 40 blanks / line breaks before or inside the ENC[
+marker, secrets under foreign keys or corrupt (malformed stream).  The real
+eyaml-rotate-keys main() runs ONCE, in-process, with all the files on the
+command line, against harness/eyaml_standin.py (passed with --eyaml);
+observed PER FILE: whether it was loaded, the in-memory document handed to
+YAML.dump (object identities included), the "file changed" decision, the
+plaintexts sent to `encrypt` while that file was being processed; and the exit
+status (or the escaping exception) of the run.  The model (coq/Model/Eyaml.v,
+Ey.rotate_main) gets the loaded documents and the cipher as finite oracle
+tables.
 """
 import io
 import json
@@ -18,6 +24,7 @@ import random
 import shutil
 import subprocess
 import sys
+import types
 import warnings
 
 import eyaml_standin as standin
@@ -27,14 +34,23 @@ import docenc
 
 CONFIG = {
     "id": "C19",
-    "rule": ("seeded random documents (depth <= 3, <= 5 entries per container): hashes and lists of plain scalars, "
-             "secrets in plain / folded / double-quoted / multi-line-plain style, anchored secrets with aliases in "
-             "hashes, in the same list and in other lists, keys incl. dotted / spaced / slashed / integer keys; a "
-             "malformed stream with secrets under a foreign key, corrupt ciphertext, plaintexts ending in white "
-             "space, starting with the ENC[ marker or non-ASCII; documents without any secret; each with and "
-             "without --backup.  non-trivial = the document holds >= 1 encrypted value; distinct = distinct text."),
+    "rule": ("one case = one invocation on 1-3 files (about 50 % one file, 30 % two, 20 % three; --backup on half). "
+             "Each file: a seeded random document (depth <= 3, <= 5 entries per container; smaller in multi-file "
+             "runs): hashes and lists of plain scalars, secrets in plain / folded / double-quoted / multi-line-plain "
+             "style, and (every stream, about 40 % of the secrets) secrets carrying 1,3,4,5,7,8,9,16 or 40 blanks / "
+             "line breaks BEFORE the ENC[ marker (double-quoted with blanks or \\n escapes, literal |2 / folded >2 "
+             "block scalars with extra indentation and leading blank lines) or INSIDE it (\"E N C [PK CS7,..\", "
+             "multi-line plain E / N / C / [PKCS7,..), anchored + aliased variants of all of them; boundary values "
+             "that are NOT encrypted by the rule (tab or letter before the marker, EN-C[); anchored secrets with "
+             "aliases in hashes, in the same list and in other lists, anchor names anc0, anc1, .. repeating from "
+             "file to file; keys incl. dotted / spaced / slashed / integer keys.  Multi-file runs: secrets (anchor-"
+             "heavy) in several files, files without any secret between rewritten neighbours, a file whose secrets "
+             "are all under a foreign key / corrupt (run ends with 3); malformed stream: arguments that are not "
+             "files, files that do not load, plaintexts ending in white space, starting with the ENC[ marker or "
+             "non-ASCII.  non-trivial = some file holds >= 1 encrypted value (by the property's rule on the loaded "
+             "document); distinct = distinct (file texts, --backup)."),
     "trusted_base": [
-        "modelled, not verified: eyamlprocessor.py 55-112, 115-305, 381-395; eyaml_rotate_keys.py 116-200; the "
+        "modelled, not verified: eyamlprocessor.py 55-112, 115-305, 381-395; eyaml_rotate_keys.py 112-200; the "
         "Hash/Array branches of Processor._update_node.recurse and Nodes.make_new_node's Anchor handling",
         "abstraction (stated in Model/Eyaml.v): a discovered path is its list of segments; rendering it as YAML Path "
         "text and evaluating it again (escape_path_section, YAMLPath.__add__, Processor.get_nodes/set_value) is "
@@ -42,12 +58,16 @@ CONFIG = {
         "the cipher: Section variables enc/dec/layout with explicit laws; in the correspondence run their finite "
         "tables come from harness/eyaml_standin.py -- the real hiera-eyaml gem (Ruby) is ABSENT in this sandbox, "
         "PKCS7 is not exercised",
-        "ruamel.yaml load/dump: the judge reloads the written file with the tool's own editor settings",
+        "isfile() and Parsers.get_yaml_data (ruamel load) are inputs of the model (not a file / does not load / "
+        "the loaded document); ruamel.yaml load/dump: the judge reloads the written file with the tool's own "
+        "editor settings",
     ],
     "assumptions": [
         "cipher laws: dec k (enc k p) = p; k <> k' -> dec k' (enc k p) fails; enc k p begins with ENC[ and is "
         "ASCII without white space; the layout of `eyaml encrypt` output only adds blanks and line breaks",
         "documents without sets, without YAML merge keys, without scalars used as keys being aliases",
+        "'ignoring whitespace and line breaks' = ignoring blank (0x20) and line feed (0x0A), the two characters "
+        "the code strips",
     ],
 }
 
@@ -74,6 +94,20 @@ PLAIN = ["value", "1", "true", "null", "some text", "ENCODED", "'quoted'", "3.5"
 SECRETS = ["s3cret", "hunter2", "correct horse battery staple", "p", "a much longer secret value " * 4 + "end",
            "with: colon", "tab\there", "line one\nline two", "0", "-----BEGIN KEY-----\nabc\n-----END KEY-----"]
 ODD_SECRETS = ["trailing newline\n", "trailing space ", "ENC[looks encrypted]", "café", " \n", "x\n\n"]
+# how many blanks / line feeds go before (or inside) the marker of a padded secret
+PADS = [1, 3, 4, 5, 7, 8, 9, 16, 40]
+STYLES = (["plain"] * 4 + ["folded"] * 2 + ["dquote"] * 2 + ["multiplain"] * 2 +
+          ["dq_pad", "dq_nl", "dq_in", "dq_in_nl", "lit_pad", "fold_pad", "plain_in"])
+# files the tool's loader refuses (get_yaml_data -> doc_loaded False -> exit_state 3)
+UNLOADABLE = ["a: [1, 2\n", "a: 1\na: 2\n", "x: &a 1\ny: &a 2\n", "- a\nb: c\n", "a: b: c\n", "--- 1\n--- 2\n",
+              "k: \"unterminated\n", "a: *nowhere\n"]
+
+
+class _Quiet:
+    """A logger that says nothing (Parsers.get_yaml_data reports through it)."""
+
+    def __getattr__(self, name):
+        return lambda *a, **kw: None
 
 
 def init_worker():
@@ -113,44 +147,138 @@ def clean(s):
 
 
 def is_eyaml(v):
+    """The property's own rule: a string whose characters, with every blank and
+    line feed removed, begin with the ENC[ marker.  (Never the library's
+    is_eyaml_value: judge / tables / classify / nontrivial all use this one.)"""
     return isinstance(v, str) and clean(v).startswith("ENC[")
 
 
+def marker_padding(v):
+    """Number of blanks / line feeds before the `[` of the marker of an encrypted value."""
+    n = 0
+    for ch in v:
+        if ch in " \n":
+            n += 1
+        elif ch == "[":
+            break
+    return n
+
+
 # ---- document generator --------------------------------------------------------------------
+def dq(s):
+    """A YAML double-quoted scalar (one line) for an ASCII string."""
+    esc = {"\n": "\\n", "\t": "\\t", "\r": "\\r", '"': '\\"', "\\": "\\\\"}
+    return '"' + "".join(esc.get(ch, ch) for ch in s) + '"'
+
+
+def ws_run(rng, n, nl):
+    """n characters of padding: blanks, or blanks mixed with line feeds."""
+    if not nl or n == 0:
+        return " " * n
+    out = [rng.choice(" \n") for _ in range(n)]
+    out[rng.randrange(n)] = "\n"
+    return "".join(out)
+
+
+def spread_marker(rng, ct, total, nl):
+    """ct with `total` blanks / line feeds put into the gaps of its marker
+    (E|N|C|[) and, sometimes, into the word that follows (PK|CS7)."""
+    assert ct.startswith("ENC[PK")
+    ngaps = 4 if rng.random() < 0.4 else 3
+    gaps = [0] * ngaps
+    for _ in range(total):
+        gaps[rng.randrange(ngaps)] += 1
+    g = [ws_run(rng, k, nl) for k in gaps] + [""]
+    return "E" + g[0] + "N" + g[1] + "C" + g[2] + "[PK" + g[3] + ct[6:]
+
+
 def secret_scalar(rng, plain, style, key="old", corrupt=False):
-    """Lines of a YAML scalar holding the encryption of `plain`; first line
-    goes after 'key: ' / '- ', the rest are continuation lines (unindented)."""
+    """(lines, value): the lines of a YAML scalar holding the encryption of
+    `plain` and the string it loads to.  The first line goes after 'key: ' /
+    '- ', the rest are continuation lines (relative to the indentation of the
+    scalar's content; an empty string is an empty line)."""
     ct = enc_text(key, plain.encode("utf-8"))
     if corrupt:
         ct = ct[:-3] + "A]" if len(ct) > 16 else "ENC[PKCS7,AAAA]"
     if style == "folded":
         w = rng.choice([20, 40, 60])
-        return [">"] + [ct[i:i + w] for i in range(0, len(ct), w)]
+        parts = [ct[i:i + w] for i in range(0, len(ct), w)]
+        return [">"] + parts, " ".join(parts) + "\n"
     if style == "dquote":
-        return ['"%s"' % ct]
+        return ['"%s"' % ct], ct
     if style == "multiplain" and len(ct) > 30:
         h = len(ct) // 2
-        return [ct[:h], ct[h:]]
-    return [ct]
+        return [ct[:h], ct[h:]], ct[:h] + " " + ct[h:]
+    if style == "dq_pad":                       # "        ENC[...]"
+        v = " " * rng.choice(PADS) + ct
+        return [dq(v)], v
+    if style == "dq_nl":                        # "\n\n\n   ENC[...]"
+        v = ws_run(rng, rng.choice(PADS), True) + ct
+        return [dq(v)], v
+    if style in ("dq_in", "dq_in_nl"):          # "E N C [PKCS7,...]" / "E\n N  C\n\n[PK CS7,..."
+        v = spread_marker(rng, ct, rng.choice(PADS), style == "dq_in_nl")
+        if rng.random() < 0.3:
+            v = ws_run(rng, rng.choice([1, 2, 5]), style == "dq_in_nl") + v
+        return [dq(v)], v
+    if style in ("lit_pad", "fold_pad"):        # |2 / >2 + blank lines + lines indented by `extra` more blanks
+        chomp = rng.choice(["", "", "-"])
+        blank = rng.choice([0, 0, 1, 3])
+        extra = rng.choice(PADS)
+        w = rng.choice([20, 40, 60])
+        parts = [" " * extra + ct[i:i + w] for i in range(0, len(ct), w)]
+        v = "\n" * blank + "\n".join(parts) + ("" if chomp == "-" else "\n")
+        return [("|" if style == "lit_pad" else ">") + "2" + chomp] + [""] * blank + parts, v
+    if style == "plain_in":                     # E / N / C / [PKCS7,... on continuation lines
+        cut = rng.choice([("E", "N", "C", "["), ("E", "NC", "["), ("EN", "C["), ("E", "N", "C[")])
+        parts = list(cut[:-1]) + [cut[-1] + ct[4:]]
+        lines, v = [parts[0]], parts[0]
+        for part in parts[1:]:
+            j = rng.choice([0, 0, 1, 2, 5, 8])
+            lines += [""] * j + [" " * rng.choice([0, 0, 3, 8]) + part]
+            v += (" " if j == 0 else "\n" * j) + part
+        return lines, v
+    return [ct], ct
+
+
+def boundary_plain(rng):
+    """YAML source of a value that is NOT encrypted by the rule although a whole
+    ciphertext sits in it: something other than a blank / line feed comes before
+    or inside the marker."""
+    ct = enc_text("old", rng.choice(SECRETS[:4]).encode())
+    return dq(rng.choice(["\t" + ct, "x" + ct, "EN-C[" + ct[4:], "ENC\t[" + ct[4:], "enc[" + ct[4:], "  \t  " + ct,
+                          "- " + ct, "E.N.C.[" + ct[4:]]))
 
 
 class Gen:
-    def __init__(self, rng, odd=False):
+    def __init__(self, rng, odd=False, allbad=False, nosecret=False, p_anchor=0.35, p_alias=0.10, small=False):
         self.rng = rng
         self.odd = odd
+        self.allbad = allbad
+        self.nosecret = nosecret
+        self.p_anchor = p_anchor
+        self.p_alias = p_alias
+        self.small = small
         self.anchors = []
         self.nsecret = 0
+        self.intended = []       # the strings the secret scalars are meant to load to
 
     def scalar(self):
         rng = self.rng
         r = rng.random()
-        if r < 0.40:
+        if r < 0.40 or self.nosecret:
+            if rng.random() < 0.12:
+                return ("plain", boundary_plain(rng))
             return ("plain", rng.choice(PLAIN))
-        if r < 0.50 and self.anchors:
+        if r < 0.40 + self.p_alias and self.anchors:
             return ("alias", rng.choice(self.anchors))
         pool = SECRETS
         key, corrupt = "old", False
-        if self.odd:
+        if self.allbad:
+            if rng.random() < 0.5:
+                key = "foreign"
+            else:
+                corrupt = True
+        elif self.odd:
             q = rng.random()
             if q < 0.35:
                 pool = ODD_SECRETS
@@ -159,9 +287,9 @@ class Gen:
             elif q < 0.6:
                 corrupt = True
         plain = rng.choice(pool)
-        style = rng.choice(["plain", "plain", "folded", "dquote", "multiplain"])
+        style = rng.choice(STYLES)
         anc = None
-        if rng.random() < 0.35:
+        if rng.random() < self.p_anchor:
             anc = "anc%d" % len(self.anchors)
             self.anchors.append(anc)
         self.nsecret += 1
@@ -170,9 +298,9 @@ class Gen:
     def node(self, depth):
         rng = self.rng
         r = rng.random()
-        if depth >= 3 or r < 0.45:
+        if depth >= (2 if self.small else 3) or r < 0.45:
             return self.scalar()
-        n = rng.randint(0, 4)
+        n = rng.randint(0, 3 if self.small else 4)
         if r < 0.75:
             keys = rng.sample(KEYS, n)
             return ("map", [(k, self.node(depth + 1)) for k in keys])
@@ -185,9 +313,10 @@ class Gen:
         if kind == "alias":
             return ["*" + sc[1]]
         _, plain, style, anc, key, corrupt = sc
-        lines = secret_scalar(self.rng, plain, style, key, corrupt)
+        lines, value = secret_scalar(self.rng, plain, style, key, corrupt)
+        self.intended.append(value)
         head = ("&%s " % anc if anc else "") + lines[0]
-        return [head] + [" " * (ind + 2) + l for l in lines[1:]]
+        return [head] + [" " * (ind + 2) + l if l else "" for l in lines[1:]]
 
     def emit(self, n, ind):
         pad = " " * ind
@@ -204,6 +333,8 @@ class Gen:
                     out.append("%s%s: %s" % (pad, ks, "{}" if v[0] == "map" else "[]"))
                 else:
                     sl = self.emit_scalar(v, ind)
+                    if v[0] == "plain" and ": " in sl[0] and sl[0][0] not in "\"'":
+                        sl = ["'%s'" % sl[0]]        # `k: x: y` does not load; as a list element it is a hash
                     out.append("%s%s: %s" % (pad, ks, sl[0]))
                     out.extend(sl[1:])
             return out
@@ -224,57 +355,135 @@ class Gen:
         raise AssertionError(n)
 
 
-def gen_doc(rng, odd=False, want_secret=True):
+def gen_doc_ex(rng, want_secret=True, **kw):
+    """(text, the strings its secret scalars are meant to load to)"""
     for _ in range(20):
-        g = Gen(rng, odd)
+        g = Gen(rng, nosecret=not want_secret, **kw)
         kind = rng.choice(["map", "map", "seq"])
-        n = rng.randint(1, 5)
+        n = rng.randint(1, 3 if g.small else 5)
         if kind == "map":
             root = ("map", [(k, g.node(1)) for k in rng.sample(KEYS, n)])
         else:
             root = ("seq", [g.node(1) for _ in range(n)])
         if want_secret and g.nsecret == 0:
             continue
-        if not want_secret and g.nsecret:
-            continue
-        return "\n".join(g.emit(root, 0)) + "\n"
-    return "a: %s\n" % enc_text("old", b"fallback")
+        return "\n".join(g.emit(root, 0)) + "\n", g.intended
+    ct = enc_text("old", b"fallback")
+    return "a: %s\n" % ct, [ct]
 
+
+def gen_doc(rng, want_secret=True, **kw):
+    return gen_doc_ex(rng, want_secret, **kw)[0]
+
+
+def gen_files(rng, i):
+    """The files of the i-th run: half of the runs have one file (6 : 2 : 2
+    well-formed : malformed : no secret), 30 % two, 20 % three."""
+    r = i % 20
+    heavy = dict(small=True, p_anchor=0.7, p_alias=0.25)
+    small = dict(small=True)
+
+    def bad_one():
+        return rng.choice([None, None, rng.choice(UNLOADABLE),
+                           rng.choice(UNLOADABLE[:3]) + "s: %s\n" % enc_text("old", b"never looked at")])
+
+    def any_one():
+        q = rng.random()
+        if q < 0.3:
+            return gen_doc(rng, **heavy)
+        if q < 0.5:
+            return gen_doc(rng, odd=True, **small)
+        if q < 0.65:
+            return gen_doc(rng, allbad=True, **small)
+        if q < 0.8:
+            return gen_doc(rng, want_secret=False, **small)
+        return bad_one()
+
+    if r < 6:
+        return [gen_doc(rng)]
+    if r < 8:
+        if r == 7 and rng.random() < 0.15:
+            return [bad_one()]
+        return [gen_doc(rng, odd=True)]
+    if r < 10:
+        return [gen_doc(rng, want_secret=False)]
+    if r in (10, 11):           # the same anchor names with secrets in both files
+        return [gen_doc(rng, **heavy), gen_doc(rng, **heavy)]
+    if r == 12:                 # a file without secrets beside a rewritten one
+        fs = [gen_doc(rng, **heavy), gen_doc(rng, want_secret=False, **small)]
+        return fs if rng.random() < 0.5 else fs[::-1]
+    if r == 13:                 # every secret of one file under a foreign key / corrupt: the run ends with 3
+        fs = [gen_doc(rng, **heavy), gen_doc(rng, allbad=True, **heavy)]
+        return fs if rng.random() < 0.5 else fs[::-1]
+    if r == 14:                 # malformed
+        fs = [bad_one(), any_one()]
+        return fs if rng.random() < 0.5 else fs[::-1]
+    if r == 15:
+        return [gen_doc(rng, **small), gen_doc(rng, **small)]
+    if r == 16:                 # secret / plain / secret
+        return [gen_doc(rng, **heavy), gen_doc(rng, want_secret=False, **small), gen_doc(rng, **heavy)]
+    if r == 17:
+        return [gen_doc(rng, **heavy), gen_doc(rng, **heavy), gen_doc(rng, **small)]
+    if r == 18:
+        fs = [gen_doc(rng, **heavy), gen_doc(rng, want_secret=False, **small),
+              gen_doc(rng, want_secret=False, **small)]
+        rng.shuffle(fs)
+        return fs
+    fs = [bad_one(), any_one(), any_one()]      # malformed
+    rng.shuffle(fs)
+    return fs
+
+
+_E = lambda p, k="old": enc_text(k, p)  # noqa: E731
 
 CORPUS = [
     # the aliases that Processor._update_node used to miss (fixed: in this branch)
-    "l1:\n  - &x %s\nl2:\n  - *x\n" % enc_text("old", b"one"),
-    "m: &x %s\nl2:\n  - *x\n  - plain\n" % enc_text("old", b"one"),
-    "l1:\n  - &x %s\nm: *x\n" % enc_text("old", b"one"),
-    "- &x %s\n- *x\n- &y %s\n- *x\n- *y\n" % (enc_text("old", b"one"), enc_text("old", b"two")),
-    "a: %s\nb: %s\n" % (enc_text("old", b"same"), enc_text("old", b"same")),
-    "a: plain\nb: [1, 2]\n",
-    "a: ' E N C [ not really, but the marker rule says yes'\n",
-    "top:\n  f: >\n    %s\n  g: x\n" % enc_text("old", b"folded one"),
-    "shared: &c\n  s: %s\nagain: *c\n" % enc_text("old", b"in a shared hash"),
+    (["l1:\n  - &x %s\nl2:\n  - *x\n" % _E(b"one")], False),
+    (["m: &x %s\nl2:\n  - *x\n  - plain\n" % _E(b"one")], True),
+    (["l1:\n  - &x %s\nm: *x\n" % _E(b"one")], False),
+    (["- &x %s\n- *x\n- &y %s\n- *x\n- *y\n" % (_E(b"one"), _E(b"two"))], True),
+    (["a: %s\nb: %s\n" % (_E(b"same"), _E(b"same"))], False),
+    (["a: plain\nb: [1, 2]\n"], True),
+    (["a: ' E N C [ not really, but the marker rule says yes'\n"], False),
+    (["top:\n  f: >\n    %s\n  g: x\n" % _E(b"folded one")], True),
+    (["shared: &c\n  s: %s\nagain: *c\n" % _E(b"in a shared hash")], False),
+    # seen_anchors is per FILE: the same anchor name carries a secret in each file of one run
+    (["k: &x %s\nl:\n  - *x\n" % _E(b"first file"), "k: &x %s\nl:\n  - *x\n" % _E(b"second file")], False),
+    (["- &x %s\n- *x\n" % _E(b"first"), "m: &x %s\nn: *x\n" % _E(b"second"), "- - &x %s\n- *x\n" % _E(b"third")],
+     True),
+    # secret / plain / secret: the middle file stays as it is, without a .bak
+    (["a: %s\n" % _E(b"left"), "a: plain\nb: [1, 2]\n", "b:\n  - %s\n" % _E(b"right")], True),
+    (["a: plain\n", "a: %s\n" % _E(b"only the second")], True),
+    # a foreign-key file stops nothing but the exit status
+    (["a: %s\n" % _E(b"fine"), "a: %s\n" % _E(b"not ours", "foreign")], False),
+    # the ONLY secret of the file is deeply padded: the file must be rewritten (and backed up)
+    (["a: \"        %s\"\n" % _E(b"eight blanks")], True),
+    (["a: \"\\n\\n\\n   \\n  %s\"\nb: plain\n" % _E(b"escapes")], True),
+    (["a: |2\n\n          %s\nb: plain\n" % _E(b"literal block")], True),
+    (["- >2\n          %s\n          %s\n" % (_E(b"folded block")[:30], _E(b"folded block")[30:])], True),
+    (["a: \"E  N  C  [PK CS7,%s\"\n" % _E(b"inside")[10:]], True),
+    (["a: E\n\n\n\n\n\n  N\n  C\n  %s\n" % _E(b"plain multi-line")[3:]], True),
+    (["k: &x \"                %s\"\nl:\n  - *x\n" % _E(b"padded and shared")], True),
+    # not encrypted by the rule: a tab is not ignored
+    (["a: \"\\t%s\"\nb: \"x%s\"\n" % (_E(b"tab"), _E(b"letter"))], True),
 ]
 
 
 def chunks(tier, seed):
     rng = random.Random(seed)
     n = 3000 if tier == "thorough" else 600
-    size = 12
+    size = 10
     cases = []
     for i in range(n):
-        r = i % 10
-        if r < 6:
-            text = gen_doc(rng)
-        elif r < 8:
-            text = gen_doc(rng, odd=True)
-        else:
-            text = gen_doc(rng, want_secret=False)
-        cases.append({"text": text, "backup": bool(i % 2)})
+        cases.append({"files": gen_files(rng, i), "backup": bool((i + i // 20) % 2)})
     for i in range(0, len(cases), size):
         yield cases[i:i + size]
 
 
 def corpus_chunks():
-    yield [{"text": t, "backup": bool(i % 2)} for i, t in enumerate(CORPUS)]
+    cases = [{"files": list(fs), "backup": b} for fs, b in CORPUS]
+    for i in range(0, len(cases), 8):
+        yield cases[i:i + 8]
 
 
 # ---- encoding a loaded document + the oracle tables -----------------------------------------
@@ -283,6 +492,41 @@ def load(text):
     with warnings.catch_warnings():
         warnings.simplefilter("error")
         return yaml.load(io.StringIO(text))
+
+
+def file_name(k):
+    return "secrets%d.yaml" % k
+
+
+def prepare(case):
+    """What each command-line argument turns out to be, decided by the tool's
+    own loader on the same bytes main() will read: notfile | unloadable | doc
+    (+ the loaded document) | loadcrash (the loader itself raised: outside the
+    model's domain)."""
+    P = _ENV["Parsers"]
+    d = os.path.join(_ENV["root"], "pre")
+    os.makedirs(d, exist_ok=True)
+    pre = []
+    for k, text in enumerate(case["files"]):
+        if text is None:
+            pre.append({"kind": "notfile"})
+            continue
+        path = os.path.join(d, file_name(k))
+        with open(path, "w", encoding="utf-8") as f:
+            f.write(text)
+        try:
+            data, ok = P.get_yaml_data(P.get_yaml_editor(), _Quiet(), path)
+        except Exception as e:  # noqa
+            pre.append({"kind": "loadcrash", "exc": type(e).__name__})
+            continue
+        pre.append({"kind": "doc", "data": data} if ok else {"kind": "unloadable"})
+    return pre
+
+
+def pre_of(case):
+    if "_pre" not in case:
+        case["_pre"] = prepare(case)
+    return case["_pre"]
 
 
 def leaves(data, path=()):
@@ -298,31 +542,32 @@ def leaves(data, path=()):
         yield path, data
 
 
-def tables(data):
+def tables(docs):
     dec, enc, lay = {}, {}, {}
-    for _, v in leaves(data):
-        if not is_eyaml(v):
-            continue
-        c = clean(str(v)).rstrip()
-        for k in ("old", "new"):
-            p = dec_bytes(k, c) if c.isascii() else None
-            dec[(k, c)] = p
-        p = dec[("old", c)]
-        if p is None:
-            continue
-        out = p if p.endswith(b"\n") else p + b"\n"
-        try:
-            retval = out.decode("ascii").rstrip()
-        except UnicodeDecodeError:
-            continue
-        if not retval:
-            continue
-        e = enc_text("new", retval.encode("ascii"))
-        enc[("new", retval)] = e
-        for k in ("old", "new"):        # a value reached twice (shared container) is decrypted again
-            dec.setdefault((k, e), dec_bytes(k, e))
-        for f in ("string", "block"):
-            lay[(f, e)] = layout(f, e)
+    for data in docs:
+        for _, v in leaves(data):
+            if not is_eyaml(v):
+                continue
+            c = clean(str(v)).rstrip()
+            for k in ("old", "new"):
+                p = dec_bytes(k, c) if c.isascii() else None
+                dec[(k, c)] = p
+            p = dec[("old", c)]
+            if p is None:
+                continue
+            out = p if p.endswith(b"\n") else p + b"\n"
+            try:
+                retval = out.decode("ascii").rstrip()
+            except UnicodeDecodeError:
+                continue
+            if not retval:
+                continue
+            e = enc_text("new", retval.encode("ascii"))
+            enc[("new", retval)] = e
+            for k in ("old", "new"):        # a value reached twice (shared container) is decrypted again
+                dec.setdefault((k, e), dec_bytes(k, e))
+            for f in ("string", "block"):
+                lay[(f, e)] = layout(f, e)
     rows = lambda t: " ".join("(%s %s %s)" % (k, hexs(a), "none" if r is None else hexs(r)) for (k, a), r in t.items())  # noqa
     return "(%s) (%s) (%s)" % (rows(dec), rows(enc), rows(lay))
 
@@ -342,74 +587,144 @@ def canon_doc(sx):
 
 
 def requests(case):
-    try:
-        data = load(case["text"])
-    except Exception:  # noqa
+    pre = pre_of(case)
+    if any(f["kind"] == "loadcrash" for f in pre):
+        case["_skip"] = True
         return ["(is-eyaml none)"]
-    sx, e = docenc.encode(data)
-    folded = [e.oid(v) for _, v in leaves(data) if isinstance(v, _ENV["Folded"])]
-    case["_enc"] = (data, e)
-    return ["(rotate %s i%d (%s) %s)" % (sx, len(e.oids), " ".join("i%d" % o for o in sorted(set(folded))), tables(data))]
+    parts = []
+    for f in pre:
+        if f["kind"] != "doc":
+            parts.append(f["kind"])
+            continue
+        data = f["data"]
+        sx, e = docenc.encode(data)
+        folded = [e.oid(v) for _, v in leaves(data) if isinstance(v, _ENV["Folded"])]
+        parts.append("(doc %s i%d (%s))" % (sx, len(e.oids), " ".join("i%d" % o for o in sorted(set(folded)))))
+    return ["(rotate-run (%s) %s)" % (" ".join(parts), tables([f["data"] for f in pre if f["kind"] == "doc"]))]
 
 
 def run_real(case):
+    """ONE run of the real main() with all the files of the case on the
+    command line.  Besides faultfs' I/O trace: which file the loop is in (the
+    name `isfile` of the command module is called once per file at the top of
+    the loop body), what Parsers.get_yaml_data returned for it, and the eyaml
+    subprocess calls made while it was the current file."""
     _COUNTER[0] += 1
     d = os.path.join(_ENV["root"], "r%d" % _COUNTER[0])
     shutil.rmtree(d, ignore_errors=True)
     os.makedirs(d)
-    T = os.path.join(d, "secrets.yaml")
-    with open(T, "w", encoding="utf-8") as f:
-        f.write(case["text"])
+    paths = []
+    for k, text in enumerate(case["files"]):
+        T = os.path.join(d, file_name(k))
+        paths.append(T)
+        if text is None:
+            if k % 2 == 0:
+                os.mkdir(T)          # exists, yet not a file; odd positions: nothing there at all
+        else:
+            with open(T, "w", encoding="utf-8") as f:
+                f.write(text)
     kd = _ENV["keys"]
     argv = ["eyaml-rotate-keys", "-x", STANDIN, "-i", os.path.join(kd, "oldpriv"), "-c", os.path.join(kd, "oldpub"),
             "-r", os.path.join(kd, "newpriv"), "-u", os.path.join(kd, "newpub")] + \
-           (["--backup"] if case["backup"] else []) + [T]
-    EP = _ENV["EP"]
+           (["--backup"] if case["backup"] else []) + paths
+    roles = {}
+    for k, T in enumerate(paths):
+        roles[T] = "t%d" % k
+        roles[T + ".bak"] = "b%d" % k
+    EP, mod, P = _ENV["EP"], _ENV["rotate"], _ENV["Parsers"]
     calls = []
-    real_run = EP.run
+    entered = []          # indices of the files the loop body was entered for, in order
+    loaded = {}           # file index -> (document, doc_loaded) as main() got them
+    real_run, real_isfile, real_parsers = EP.run, mod.isfile, mod.Parsers
+
+    def index_of(p):
+        try:
+            return paths.index(os.path.abspath(p))
+        except (ValueError, TypeError):
+            return None
 
     def logged_run(cmd, **kw):
         kw.setdefault("timeout", 120)
         kw.setdefault("stderr", subprocess.DEVNULL)     # the stand-in's complaints are not ours to print
+        cur = entered[-1] if entered else None
         try:
             r = real_run(cmd, **kw)
         except Exception:
-            calls.append((cmd[1], kw.get("input"), None))
+            calls.append((cmd[1], kw.get("input"), None, cur))
             raise
-        calls.append((cmd[1], kw.get("input"), r.stdout))
+        calls.append((cmd[1], kw.get("input"), r.stdout, cur))
         return r
+
+    def seen_isfile(p):
+        k = index_of(p)
+        if k is not None:
+            entered.append(k)
+        return real_isfile(p)
+
+    def seen_get_yaml_data(parser, logger, source, **kw):
+        res = P.get_yaml_data(parser, logger, source, **kw)
+        k = index_of(source)
+        if k is not None:
+            loaded[k] = res
+        return res
+
     EP.run = logged_run
+    mod.isfile = seen_isfile
+    mod.Parsers = types.SimpleNamespace(get_yaml_editor=P.get_yaml_editor, get_yaml_data=seen_get_yaml_data)
     try:
-        r = faultfs.run_tool(_ENV["rotate"], argv, {T: "target", T + ".bak": "bak"})
-        files = {n: open(os.path.join(d, n), "rb").read() for n in sorted(os.listdir(d))}
+        r = faultfs.run_tool(mod, argv, roles)
+        files = {}
+        for n in sorted(os.listdir(d)):
+            if os.path.isfile(os.path.join(d, n)):
+                with open(os.path.join(d, n), "rb") as f:
+                    files[n] = f.read()
     finally:
-        EP.run = real_run
+        EP.run, mod.isfile, mod.Parsers = real_run, real_isfile, real_parsers
         shutil.rmtree(d, ignore_errors=True)
-    return r, calls, files
+    return {"r": r, "calls": calls, "files": files, "entered": entered, "loaded": loaded}
+
+
+def raise_line(exc):
+    from yamlpath.exceptions import YAMLPathException
+    if isinstance(exc, YAMLPathException):
+        return "(raise ype)"
+    for fam in (ValueError, TypeError, KeyError, IndexError, AttributeError):
+        if isinstance(exc, fam):      # UnicodeDecodeError / UnicodeEncodeError are ValueErrors
+            return "(raise (crash %s))" % fam.__name__
+    return "(raise (crash %s))" % type(exc).__name__
 
 
 def observe(case):
-    """Line: what the model's rotate request is compared with."""
-    if "_enc" not in case:
+    """Line: what the model's rotate-run request is compared with.  An
+    exception that escapes main(): the files the loop got through are listed,
+    the one it was in is not."""
+    if case.get("_skip") or "_pre" not in case:
         return ["false"]
-    r, calls, files = run_real(case)
-    case["_run"] = (r, calls, files)
-    if r["exc"] is not None:
-        from yamlpath.exceptions import YAMLPathException
-        if isinstance(r["exc"], YAMLPathException):
-            return ["(raise ype)"]
-        for fam in (ValueError, TypeError, KeyError, IndexError, AttributeError):
-            if isinstance(r["exc"], fam):      # UnicodeDecodeError / UnicodeEncodeError are ValueErrors
-                return ["(raise (crash %s))" % fam.__name__]
-        return ["(raise (crash %s))" % type(r["exc"]).__name__]
-    changed = any(x.startswith("(opentrunc target") for x in r["trace"])
-    if r["dumped"]:
-        sx, _ = docenc.encode(r["dumped"][-1])
-    else:
-        sx, _ = docenc.encode(load(case["text"]))
-    rotated = [hexs(inp) for (what, inp, out) in calls if what == "encrypt" and out]
-    return ["(ok ((doc %s) (changed %s) (exit i%d) (rotated (%s))))" % (
-        sexp_str(canon_doc(sexp_parse(sx))), "true" if changed else "false", r["status"], " ".join(rotated))]
+    run = run_real(case)
+    case["_run"] = run
+    r = run["r"]
+    crashed = r["exc"] is not None
+    done = run["entered"][:-1] if crashed else run["entered"]
+    dumped = {}
+    j = 0
+    for line in r["trace"]:           # (opentrunc tK) ... (dump tK): the j-th dump is the j-th dumped document
+        if line.startswith("(dump t"):
+            if j < len(r["dumped"]):
+                dumped[int(line[len("(dump t"):-1])] = r["dumped"][j]
+            j += 1
+    parts = []
+    for k in done:
+        ld = run["loaded"].get(k)
+        if ld is None or not ld[1]:
+            parts.append("(file skipped)")
+            continue
+        changed = ("(opentrunc t%d)" % k) in r["trace"]
+        sx, _ = docenc.encode(dumped[k] if k in dumped else ld[0])
+        rotated = [hexs(inp) for (what, inp, out, f) in run["calls"] if what == "encrypt" and out and f == k]
+        parts.append("(file (doc %s) (changed %s) (rotated (%s)))" % (
+            sexp_str(canon_doc(sexp_parse(sx))), "true" if changed else "false", " ".join(rotated)))
+    end = raise_line(r["exc"]) if crashed else "(exit i%d)" % r["status"]
+    return ["(run (%s) (end %s))" % (" ".join(parts), end)]
 
 
 # ---- the property on the implementation's own files ----------------------------------------------
@@ -424,24 +739,23 @@ def strip_secrets(data):
     return ["V", anc, repr(data), type(data).__name__ if not isinstance(data, str) else "str"]
 
 
-def judge(case, obs):
-    run = case.get("_run")
-    if run is None:
-        return None
-    r, calls, files = run
-    orig_bytes = case["text"].encode("utf-8")
-    before = load(case["text"])
+def judge_file(k, text, before, run, backup, succeeded):
+    """The property for ONE file of the run: its own bytes before / after, its
+    own .bak, its own secrets, the encryptions made while it was processed."""
+    files = run["files"]
+    name = file_name(k)
+    orig_bytes = text.encode("utf-8")
     secrets = [(p, v) for p, v in leaves(before) if is_eyaml(v)]
     if not secrets:
-        if files.get("secrets.yaml") != orig_bytes:
+        if files.get(name) != orig_bytes:
             return "a file holding no encrypted value was rewritten"
-        if "secrets.yaml.bak" in files:
+        if name + ".bak" in files:
             return "a file holding no encrypted value was backed up"
         return None
-    if r["status"] != 0 or r["exc"] is not None:
+    if not succeeded:
         return None          # the property speaks about successful runs
     try:
-        after = load(files["secrets.yaml"].decode("utf-8"))
+        after = load(files[name].decode("utf-8"))
     except Exception as e:  # noqa
         return "the rotated file does not load any more: %s" % type(e).__name__
     if strip_secrets(after) != strip_secrets(before):
@@ -465,11 +779,27 @@ def judge(case, obs):
     for ps in groups.values():
         if len({id(after_at[p]) for p in ps}) != 1:
             return "values shared through an anchor are no longer shared: %r" % (ps,)
-    nenc = sum(1 for (what, inp, out) in calls if what == "encrypt")
+    nenc = sum(1 for (what, inp, out, f) in run["calls"] if what == "encrypt" and f == k)
     if nenc != len(groups):
         return "%d secret object(s) but %d encryptions" % (len(groups), nenc)
-    if case["backup"] and files.get("secrets.yaml.bak") != orig_bytes:
+    if backup and files.get(name + ".bak") != orig_bytes:
         return "--backup: the .bak is not the pre-image"
+    return None
+
+
+def judge(case, obs):
+    run = case.get("_run")
+    if run is None:
+        return None
+    r = run["r"]
+    succeeded = r["status"] == 0 and r["exc"] is None
+    n = len(case["files"])
+    for k, (text, f) in enumerate(zip(case["files"], pre_of(case))):
+        if f["kind"] != "doc":
+            continue         # nothing the property can be asked about: not a file, or no values to speak of
+        v = judge_file(k, text, f["data"], run, case["backup"], succeeded)
+        if v is not None:
+            return v if n == 1 else "file %d of %d (%s): %s" % (k + 1, n, file_name(k), v)
     return None
 
 
@@ -478,51 +808,70 @@ def plaintext_is_odd(case, obs):
     white space (eyaml's own trailing newline cannot be told from the secret's),
     or that itself begins with the ENC[ marker, does not survive."""
     try:
-        before = load(case["text"])
+        pre = pre_of(case)
     except Exception:  # noqa
         return False
-    for _, v in leaves(before):
-        if is_eyaml(v):
-            p = dec_bytes("old", clean(str(v)).rstrip())
-            if p is not None:
-                try:
-                    t = p.decode("ascii")
-                except UnicodeDecodeError:
-                    continue
-                if t != t.rstrip() or is_eyaml(t):
-                    return True
+    for f in pre:
+        if f["kind"] != "doc":
+            continue
+        for _, v in leaves(f["data"]):
+            if is_eyaml(v):
+                p = dec_bytes("old", clean(str(v)).rstrip())
+                if p is not None:
+                    try:
+                        t = p.decode("ascii")
+                    except UnicodeDecodeError:
+                        continue
+                    if t != t.rstrip() or is_eyaml(t):
+                        return True
     return False
 
 
 FINDING_PREDS = {"plaintext_trailing_space_or_marker": plaintext_is_odd}
 
 
+def secret_stats(case):
+    """(#secret positions, #positions that are aliases of another, #secret objects with >= 5 blanks /
+    line feeds before the `[` of the marker, #files not loaded) over all files."""
+    n = objs = deep = skipped = 0
+    for f in pre_of(case):
+        if f["kind"] != "doc":
+            skipped += 1
+            continue
+        seen = {}
+        for _, v in leaves(f["data"]):
+            if is_eyaml(v):
+                n += 1
+                seen[id(v)] = v
+        objs += len(seen)
+        deep += sum(1 for v in seen.values() if marker_padding(v) >= 5)
+    return n, n - objs, deep, skipped
+
+
 def classify(case, obs):
     run = case.get("_run")
     if run is None:
-        return "unloadable"
-    r = run[0]
-    try:
-        before = load(case["text"])
-        n = sum(1 for _, v in leaves(before) if is_eyaml(v))
-        shared = len({id(v) for _, v in leaves(before) if is_eyaml(v)})
-    except Exception:  # noqa
-        n = shared = -1
-    return "secrets=%s aliases=%s status=%s%s" % (min(n, 6), min(n - shared, 3), r["status"],
-                                                   ":" + r["crash"] if r["crash"] else "")
+        return "outside the domain (the loader itself raised)"
+    r = run["r"]
+    n, aliases, deep, skipped = secret_stats(case)
+    return "files=%d skipped=%d secrets=%s aliases=%s deep=%s status=%s%s" % (
+        len(case["files"]), skipped, min(n, 5), min(aliases, 2), min(deep, 2), r["status"],
+        ":" + r["crash"] if r["crash"] else "")
 
 
 def nontrivial(case, obs):
-    return "ENC[" in clean(case["text"])
+    return secret_stats(case)[0] > 0
 
 
 def key(case):
-    return (case["text"], case["backup"])
+    return (tuple(case["files"]), case["backup"])
 
 
 def describe(case):
-    return {"text": case["text"], "backup": case["backup"]}
+    return {"files": list(case["files"]), "backup": case["backup"]}
 
 
 def undescribe(d):
-    return {"text": d["text"], "backup": d["backup"]}
+    if "files" not in d:         # replay files written before runs had several files
+        return {"files": [d["text"]], "backup": d["backup"]}
+    return {"files": list(d["files"]), "backup": d["backup"]}
